@@ -99,7 +99,8 @@ CLAIMED = {
              "ComputationalBasisState.circuit (model run against the real property up to 130 qubits) prepare |bits> for every "
              "register and bit pattern; mixed_chain_state_is_the_gates_applied_to_the_tracked_vector: the general state over "
              "circuit + gates returned for a chain with a non-Pauli gate is, times the tracked phase, the gates applied to the "
-             "vector of the basis state it was derived from.",
+             "vector of the basis state it was derived from; superposition_builder_from_the_zero_state composes the preparation circuit with "
+             "the builder's rotation and RZ.",
         design_ref="DESIGN.md section 4 (C16), 9.2",
         note="Trusted: Coq kernel+vm_compute; Reals axioms + funext; correspondence harness. Partial: "
              "the matrices of the non-Pauli gates in a mixed chain are operators of the theorem (C01 territory); derivation histories by the sweep.",
